@@ -530,3 +530,21 @@ def run_mp_faults(task):
                                          mode=MODE))
     res["wall"] = time.time() - t0
     return res
+
+
+def replay_fault(task):
+    """Re-runs one recorded fault case through the same oracle."""
+    fc = task["witness"]["fault_case"]
+    grid = [c for c in fault_grid("thorough") if c["mi"] == fc["model_index"] and c["case"]["k"] == fc["k"]
+            and c["op"] == fc["op"] and c["fault"] == fc["fault"]]
+    if not grid:
+        return {"fails": [{"kind": "not_in_grid", "detail": repr(fc)}]}
+    import framework.props.mpfamily as me
+
+    saved = me.fault_grid
+    me.fault_grid = lambda tier: grid
+    try:
+        r = run_mp_faults({"tier": "thorough", "chunk": 0, "nchunks": 1})
+    finally:
+        me.fault_grid = saved
+    return {"fails": r["fails"], "counters": r["counters"]}
